@@ -157,8 +157,8 @@ func runC04(c C04Case, ev *Evid) (fs []Finding) {
 
 func TestC04(t *testing.T) {
 	RunProperty(t, Property[C04Case]{
-		ID: "C04",
-		Rule: "rapid-generated (layout, clock, 6 windows incl. from=0, from>until, degenerate, sub-step, straddling now / a retention edge, ids -2..k+1 and 'best') checked against the contract computed in exact arithmetic, on the empty file and again after each archive of a generated write order has been written; every window is also fetched in wall-clock mode (now = 0) with whispertool.Now mocked to tick one second per reading, where the shape must be the contract's at one of the instants handed out (so each window is seen with its archive never written, with only other archives written, and written). Non-trivial: some window straddles now or a retention edge, is degenerate/sub-step, must fail, uses 'best' within +-1 of a retention, or some archive stays never written. Distinct = hash of the case.",
+		ID:          "C04",
+		Rule:        "rapid-generated (layout, clock, 6 windows incl. from=0, from>until, degenerate, sub-step, straddling now / a retention edge, ids -2..k+1 and 'best') checked against the contract computed in exact arithmetic, on the empty file and again after each archive of a generated write order has been written; every window is also fetched in wall-clock mode (now = 0) with whispertool.Now mocked to tick one second per reading, where the shape must be the contract's at one of the instants handed out (so each window is seen with its archive never written, with only other archives written, and written). Non-trivial: some window straddles now or a retention edge, is degenerate/sub-step, must fail, uses 'best' within +-1 of a retention, or some archive stays never written. Distinct = hash of the case.",
 		Assumptions: []string{"zone Z7 clocks (now > max retention + coarsest step; below 2^32 - 2 coarse steps)"},
 		Gen: func(t *rapid.T) C04Case {
 			o := defaultLayoutOpts()
